@@ -17,7 +17,10 @@ for sid in sorted(os.listdir(root)):
     import glob
     r = None
     for pth in [patch] + sorted(glob.glob(os.path.join(d, "patch_rebased_*.diff")), reverse=True):
-        r = sh("git", "-C", "/repo", "apply", pth)
+        for extra in ([], ["-C1"]):
+            r = sh("git", "-C", "/repo", "apply", *extra, pth)
+            if r.returncode == 0:
+                break
         if r.returncode == 0:
             break
     if r.returncode != 0:
